@@ -25,7 +25,7 @@ var boundaryJitter = []int64{-60, -51, -50, -49, -40, -15, -6, -5, -4, -1, 0, 1,
 
 // FocusOps: the operations that remap indices or select vertices.
 var FocusOps = []string{"weld", "weld", "weld", "remove_unref", "remove_null", "filter", "split", "unweld", "append",
-	"crop", "to_points", "flip", "set_indices"}
+	"crop", "to_points", "flip", "set_indices", "slice"}
 
 // Structured returns a well-formed mesh built to the recipe above; stray says where the
 // unreferenced vertices are ("none","front","middle","back","several"), degen is "none","some","all".
